@@ -321,6 +321,9 @@ func (w *World) inSyncClause() {
 	if w.P == nil {
 		return
 	}
+	was := w.Store.Paused
+	w.Store.Paused = true
+	defer func() { w.Store.Paused = was }()
 	ctx := core.Ctx()
 	consumed := w.P.consumed()
 	start := w.startHeightOnBest()
@@ -357,6 +360,9 @@ func (w *World) inSyncClause() {
 
 // chainInvariants (C02): linkage, inverse maps, tip-only growth; called at quiescent points.
 func (w *World) chainInvariants(prop string) {
+	was := w.Store.Paused
+	w.Store.Paused = true // the oracle's own reads are not part of the fault schedule
+	defer func() { w.Store.Paused = was }()
 	ctx := core.Ctx()
 	tip := w.Node.LastHeight(ctx)
 	lo := tip - 12
